@@ -232,12 +232,14 @@ package readline
 //@   assume_nopanic Iterations.Add (vi count handling) is outside this contract
 //@   requires moveok(rl)
 //@   ensures [movement-never-edits] *rl.line == old(*rl.line)
+//@   ensures [keeps-invariant] old(fullok(rl)) ==> fullok(rl)
 
 //@ func (*Shell).endOfLine
 //@   props C06 C01
 //@   terminates
 //@   requires moveok(rl)
 //@   ensures [movement-never-edits] *rl.line == old(*rl.line)
+//@   ensures [keeps-invariant] old(fullok(rl)) ==> fullok(rl)
 
 // ---------------------------------------------------------------------------------------
 // C11: the terminal mode is restored on every way out of Readline, the panic of a bound command included.
@@ -485,7 +487,7 @@ package readline
 //@ func (*Shell).viChangeCase
 //@   props C01
 //@   terminates
-//@   requires fullok(rl)
+//@   requires fullok(rl) && core.selinv(rl.selection)
 
 //@ func (*Shell).viChangeEol
 //@   props C01
@@ -849,3 +851,30 @@ package readline
 //@   terminates
 //@   requires fullok(rl) && editor.regsclean(rl.Buffers)
 //@   loop 1 invariant fullok0(rl) && editor.regsclean(rl.Buffers)
+
+// commands that read their argument key from the terminal (H-INPUT)
+//@ func (*Shell).prefixMeta
+//@   props C01
+//@   requires fullok(rl) && keyready(rl)
+//@ func (*Shell).viChangeChar
+//@   props C01
+//@   requires fullok(rl) && keyready(rl) && core.selinv(rl.selection)
+//@ func (*Shell).viSelectSurround
+//@   props C01
+//@   requires fullok(rl) && keyready(rl)
+//@ func (*Shell).viSetBuffer
+//@   props C01
+//@   requires fullok(rl) && keyready(rl)
+
+//@ func (*Shell).viInsertBol
+//@   props C01
+//@   requires fullok(rl)
+//@ func (*Shell).viAddEol
+//@   props C01
+//@   requires fullok(rl)
+//@ func (*Shell).viOpenLineAbove
+//@   props C01
+//@   requires fullok(rl)
+//@ func (*Shell).viOpenLineBelow
+//@   props C01
+//@   requires fullok(rl)
